@@ -152,7 +152,7 @@ func (e *Exec) havocAll(st *State) {
 }
 
 func isHeapKey(k string) bool {
-	return strings.HasPrefix(k, "H!") || strings.HasPrefix(k, "MD!") || strings.HasPrefix(k, "MV!") || strings.HasPrefix(k, "P!") ||
+	return strings.HasPrefix(k, "OP!") || strings.HasPrefix(k, "OV!") || strings.HasPrefix(k, "H!") || strings.HasPrefix(k, "MD!") || strings.HasPrefix(k, "MV!") || strings.HasPrefix(k, "P!") ||
 		strings.HasPrefix(k, "G!") || strings.HasPrefix(k, "SM!")
 }
 
@@ -1071,6 +1071,33 @@ func (e *Exec) havocTarget(m ast.Expr, st *State, fr *Frame, bound map[string]Te
 			case "now":
 				e.advanceTime(st, "0")
 				return
+			case "ovof":
+				so, fld := e.syncMapOwner(x.Args[0], sc)
+				at := &Type{K: KGMap, Key: tInt, Elem: tAny}
+				oa := e.get(st, "OV!"+fld, at)
+				e.set(st, "OV!"+fld, Term{fmt.Sprintf("(store %s %s %s)", oa.S, so.S, e.vc.FreshConst("hv_ov", "Any")), at})
+				return
+			case "opall":
+				if se, ok := x.Args[0].(*ast.SelectorExpr); ok {
+					t := e.specType(se.X, sc)
+					e.havocKey(st, "OP!"+t.Name+"!"+se.Sel.Name, &Type{K: KGMap, Key: tInt, Elem: tInt})
+					return
+				}
+			case "cell":
+				pv := e.eval(x.Args[0], sc)
+				if pv.T.K == KRef && pv.T.Name == "" {
+					at := &Type{K: KGMap, Key: tInt, Elem: pv.T.Elem}
+					key := "P!" + mangle(e.Sort(pv.T.Elem))
+					h := e.get(st, key, at)
+					e.set(st, key, Term{fmt.Sprintf("(store %s %s %s)", h.S, pv.S, e.vc.FreshConst("hv_cell", e.Sort(pv.T.Elem))), at})
+					return
+				}
+			case "opof":
+				so, fld := e.syncMapOwner(x.Args[0], sc)
+				at := &Type{K: KGMap, Key: tInt, Elem: tInt}
+				oa := e.get(st, "OP!"+fld, at)
+				e.set(st, "OP!"+fld, Term{fmt.Sprintf("(store %s %s %s)", oa.S, so.S, e.vc.FreshConst("hv_op", "Int")), at})
+				return
 			case "smapof":
 				so, fld := e.syncMapOwner(x.Args[0], sc)
 				d, va := e.syncMapArrs(st, so, fld)
@@ -1248,6 +1275,10 @@ func (e *Exec) specCall(call *ast.CallExpr, c *Ctx) Term {
 			return Term{e.mapVal(c.st, m), &Type{K: KGMap, Key: m.T.Key, Elem: m.T.Elem}}
 		case "smap":
 			// smap(x.f): the (dom, val) view of a sync.Map field: smapdom / smapval
+		case "wgcount", "atomicval":
+			owner, fld := e.syncMapOwner(call.Args[0], c)
+			arr := e.get(c.st, "OP!"+fld, &Type{K: KGMap, Key: tInt, Elem: tInt})
+			return Term{fmt.Sprintf("(select %s %s)", arr.S, owner.S), tInt}
 		case "smapin":
 			owner, fld := e.syncMapOwner(call.Args[0], c)
 			k := e.toAny(e.eval(call.Args[1], c), c.st)
